@@ -4,8 +4,15 @@
    ordermap.rs (derived Vec equality).  Numbers: Model/Numeric.v.
    Strings are modelled for escape-free text only: then `unquote` is the
    identity and equality is text equality whatever the quotes.
-   A map (Vec<(K, V)>) is kept as the list of its keys and the list of its
-   values (same length): Vec equality is the conjunction over both. *)
+   Since the fix "map equality ignores key order" two
+   maps are equal when they have the same length and every entry (k, v) of the
+   left one finds, as FIRST entry of the right one with an equal key, an equal
+   value.  The code evaluates those inner comparisons with the right map's
+   entry on the left (`k' == k`, `Some(v') == Some(v)`); the model evaluates
+   `veq k k'`, `veq v v'` (structural recursion on the left value).  The two
+   agree whenever the inner pairs compare symmetrically, which C12_sym proves
+   for every pair whose numbers have aligned units; Run/C12.v treats a map
+   comparison involving numbers with two different units as outside the model. *)
 From Coq Require Import String List ZArith Bool NArith.
 From RV Require Import Base.F64 Base.Text Model.Units Model.Numeric.
 Import ListNotations.
@@ -16,7 +23,7 @@ Inductive value : Type :=
 | VNum (n : numeric) (calc : bool)
 | VStr (s : list N) (quoted : bool)
 | VList (xs : list value) (sep : Z) (bracketed : bool)    (* sep: 0 = None, 1 = space, 2 = comma, 3 = slash *)
-| VMap (ks vs : list value)
+| VMap (kvs : list (value * value))
 | VOther.                                                  (* colours, functions, ...: not modelled *)
 
 (* Numeric == Numeric; a unit set outside Model/Units counts as unequal (and as unmodelled, see below) *)
@@ -46,21 +53,22 @@ Fixpoint veq (a b : value) {struct a} : bool :=
          | x :: xs', y :: ys' => veq x y && go xs' ys'
          | _, _ => false
          end) xs ys && (s1 =? s2) && Bool.eqb b1 b2
-  | VMap ks vs, VMap ks' vs' =>
-      (fix go (xs ys : list value) : bool :=
-         match xs, ys with
-         | [], [] => true
-         | x :: xs', y :: ys' => veq x y && go xs' ys'
-         | _, _ => false
-         end) ks ks' &&
-      (fix go (xs ys : list value) : bool :=
-         match xs, ys with
-         | [], [] => true
-         | x :: xs', y :: ys' => veq x y && go xs' ys'
-         | _, _ => false
-         end) vs vs'
-  | VList xs _ _, VMap ks _ => match xs, ks with [], [] => true | _, _ => false end
-  | VMap ks _, VList xs _ _ => match ks, xs with [], [] => true | _, _ => false end
+  | VMap kvs, VMap kvs' =>
+      (* a.len() == b.len() && a.iter().all(|(k, v)| b.get(k) == Some(v)); b.get = first entry whose key is equal *)
+      Nat.eqb (length kvs) (length kvs') &&
+      (fix all_found (l : list (value * value)) : bool :=
+         match l with
+         | (k, v) :: r =>
+             (fix get (lb : list (value * value)) : bool :=
+                match lb with
+                | (k', v') :: rb => if veq k k' then veq v v' else get rb
+                | [] => false
+                end) kvs'
+             && all_found r
+         | [] => true
+         end) kvs
+  | VList xs _ _, VMap kvs => match xs, kvs with [], [] => true | _, _ => false end
+  | VMap kvs, VList xs _ _ => match kvs, xs with [], [] => true | _, _ => false end
   | _, _ => false
   end.
 
@@ -107,7 +115,7 @@ Fixpoint has_other (v : value) : bool :=
   match v with
   | VOther => true
   | VList xs _ _ => existsb has_other xs
-  | VMap ks vs => existsb has_other ks || existsb has_other vs
+  | VMap kvs => existsb (fun kv => has_other (fst kv) || has_other (snd kv)) kvs
   | _ => false
   end.
 
@@ -116,7 +124,7 @@ Fixpoint numbers_of (v : value) : list numeric :=
   match v with
   | VNum n _ => [n]
   | VList xs _ _ => flat_map numbers_of xs
-  | VMap ks vs => flat_map numbers_of ks ++ flat_map numbers_of vs
+  | VMap kvs => flat_map (fun kv => (numbers_of (fst kv) ++ numbers_of (snd kv))%list) kvs
   | _ => []
   end.
 Definition nan_free (v : value) : bool :=
